@@ -158,6 +158,22 @@ let () =
             if r_junk_head jc then
               print_endline (Printf.sprintf "bad %s/%d/t :: text=%s" seed i
                                (cps_s (text @ (jc :: cps (pick [| ""; " x"; "\n"; "R <- 'a'\n"; ")"; "\n# c\n" |])))));
+            (* q: the file followed by a literal that is opened and never closed *)
+            let qc = pick [| 39; 34 |] in
+            let body = List.filter (fun c -> int_of_z c <> qc) (cps (pick [| "ab"; "a b\n"; "x\\n y"; ""; "abc\nR <- 'x'\n"; "[a-z] \\\"" |])) in
+            print_endline (Printf.sprintf "bad %s/%d/q :: text=%s" seed i (cps_s (text @ (z_of_int qc :: body))));
+            (* b: the file followed by a group, a capture, an action or a class that is opened and never closed *)
+            let (bo, bc) = pick [| (40, 41); (60, 62); (123, 125); (91, 93) |] in
+            let bbody = List.filter (fun c -> int_of_z c <> bc) (cps (pick [| " 'a' x"; "a b\n"; ""; "abc\nR <- 'x'\n"; " x / y*"; "a-z" |])) in
+            let bbody = (match bbody with c :: _ when bo = 60 && int_of_z c = 45 -> z_of_int 32 :: bbody | _ -> bbody) in
+            print_endline (Printf.sprintf "bad %s/%d/b :: text=%s" seed i (cps_s (text @ (z_of_int bo :: bbody))));
+            (* d: the file followed by & or ! and nothing but layout to the end *)
+            print_endline (Printf.sprintf "bad %s/%d/d :: text=%s" seed i (cps_s (text @ (z_of_int (pick [| 38; 33 |]) :: gen_lay false))));
+            (* s: the text stops inside the parser's state: "Peg {" opened and never closed *)
+            (let h = r_head_text { f with f_state = []; f_s4 = [] } in
+             let upto = List.rev (List.tl (List.rev h)) in        (* without the closing brace *)
+             let t = List.filter (fun c -> int_of_z c <> 125) (cps (pick [| ""; " n int"; "\n T []string\n"; " x struct{ a int"; "\nR <- 'a'\n" |])) in
+             print_endline (Printf.sprintf "bad %s/%d/s :: text=%s" seed i (cps_s (upto @ t))));
             (* r: the head of the file with no rule behind it *)
             let j = cps (pick [| ""; ")"; "123"; "= x"; "'a'"; "<- 'a'"; "(R <- 'a')"; "{ }"; ". x"; "\"a\" b" |]) in
             (match j with
